@@ -364,9 +364,9 @@ class File:
 
         if not children:
             for prop in obj.props:
-                self.sections[obj.name].create_property(copy_from=prop, keep_copy_id=keep_id)
+                self.sections[name].create_property(copy_from=prop, keep_copy_id=keep_id)
 
-        return self.sections[obj.name]
+        return self.sections[name]
 
     def flush(self):
         self._h5file.flush()
@@ -412,8 +412,8 @@ class File:
                                 "is the same as the source parent")
             blk = copy_from._parent._h5group.copy(source=src, dest=self._h5group, name=name, cls=clsname,
                                                   keep_id=keep_copy_id)
-            entity_id = blk.attrs["entity_id"]
-            return self.blocks[entity_id]
+            # address the copy by name: with keep_copy_id the id is not unique
+            return self.blocks[blk.attrs["name"]]
 
         if name in self._data:
             raise DuplicateName("Block with the given name already exists!")
